@@ -7,7 +7,8 @@
    actually decomposed (two independent runs `eigh`, `eigh'` where two calls are compared);
    the harness checks these hypotheses on every recorded LAPACK call. *)
 From Coq Require Import Reals ZArith List Permutation.
-From PV Require Import Num NumR Model_diag Proofs_diag Proofs_diag_inst Model_diag_session Proofs_diag_session.
+From PV Require Import Num NumR Model_diag Proofs_diag Proofs_diag_inst Proofs_diag_more Proofs_diag_angle
+  Model_diag_session Proofs_diag_session.
 From PV.gen Require Import Gen_diag.
 Import ListNotations.
 Open Scope R_scope.
@@ -183,6 +184,111 @@ Example C13_nonvacuous :
        ((t / n, - (1 / n), 0), (0, 0, 1), (1 / n, t / n, 0)))) /\
   axes_flipped I3 ((1, 0, 0), (0, -1, 0), (0, 0, -1)).
 Proof. exact nonvacuous_diag. Qed.
+
+(* ---- when P, G, R reach 1; exchange of the two axes of the coaxial index ---- *)
+(* P = 1 iff the eigenvalues are (0, 0, n) iff all axes of the chosen kind are pairwise parallel
+   (cross product zero), and then any two of them are equal up to sign *)
+Theorem C13_pgr_point_iff : forall (eigvalsh : S3 -> V3) os r,
+  os <> [] -> Forall unit_rows os ->
+  vals_spec (scatter os r) (eigvalsh (scatter os r)) ->
+  let '(P, G, Rn) := symmetry_pgr eigvalsh os r in
+  (P = 1 <-> eigvalsh (scatter os r) = (0, 0, INR (length os))) /\
+  (P = 1 <-> ForallOrdPairs parallel (map (rowv r) os)) /\
+  (P = 1 -> G = 0 /\ Rn = 0 /\
+            forall o o', In o os -> In o' os -> rowv r o = rowv r o' \/ rowv r o = neg3 (rowv r o')).
+Proof. exact pgr_point_iff. Qed.
+
+(* G = 1 iff the eigenvalues are (0, n/2, n/2): coplanar axes (det S = 0), isotropic in the plane *)
+Theorem C13_pgr_girdle_iff : forall (eigvalsh : S3 -> V3) os r,
+  os <> [] -> Forall unit_rows os ->
+  vals_spec (scatter os r) (eigvalsh (scatter os r)) ->
+  let '(P, G, Rn) := symmetry_pgr eigvalsh os r in
+  (G = 1 <-> eigvalsh (scatter os r) = (0, INR (length os) / 2, INR (length os) / 2)) /\
+  (G = 1 -> P = 0 /\ Rn = 0 /\ det6 (scatter os r) = 0).
+Proof. exact pgr_girdle_iff. Qed.
+
+(* R = 1 iff the three eigenvalues coincide iff the scatter matrix is (n/3) I *)
+Theorem C13_pgr_random_iff : forall (eigvalsh : S3 -> V3) os r,
+  os <> [] -> Forall unit_rows os ->
+  vals_spec (scatter os r) (eigvalsh (scatter os r)) ->
+  let '(P, G, Rn) := symmetry_pgr eigvalsh os r in
+  (Rn = 1 <-> eigvalsh (scatter os r) = (INR (length os) / 3, INR (length os) / 3, INR (length os) / 3)) /\
+  (Rn = 1 <-> scatter os r = iso6 (INR (length os) / 3)) /\
+  (Rn = 1 -> P = 0 /\ G = 0).
+Proof. exact pgr_random_iff. Qed.
+
+(* the coaxial index is NOT symmetric in its axes: BA(axis2, axis1) = 1 - BA(axis1, axis2), BA(axis, axis) = 1/2 *)
+Theorem C13_coaxial_swap : forall (eigvalsh : S3 -> V3) os r1 r2,
+  os <> [] -> Forall unit_rows os ->
+  vals_spec (scatter os r1) (eigvalsh (scatter os r1)) ->
+  vals_spec (scatter os r2) (eigvalsh (scatter os r2)) ->
+  anisotropic (eigvalsh (scatter os r1)) -> anisotropic (eigvalsh (scatter os r2)) ->
+  coaxial_index eigvalsh os r2 r1 = 1 - coaxial_index eigvalsh os r1 r2 /\
+  coaxial_index eigvalsh os r1 r1 = 1 / 2.
+Proof. exact coaxial_swap. Qed.
+
+(* ---- finite strain of rotations, stretches, and of any F given by a singular value decomposition ---- *)
+Theorem C13_fse_rotation_zero : forall (eigh : S3 -> EV) (Q : M3), orthogonal Q ->
+  vals_spec (left_cauchy_green Q) (fst (eigh (left_cauchy_green Q))) ->
+  fst (finite_strain eigh Q) = 0.
+Proof. exact fse_rotation_zero. Qed.
+
+Theorem C13_fse_svd_value : forall (eigh : S3 -> EV) (Q1 Q2 : M3) s1 s2 s3,
+  orthogonal Q1 -> orthogonal Q2 -> 0 <= s1 -> s1 <= s2 -> s2 <= s3 ->
+  let Fm := mmul (mmul Q1 (diag3 s1 s2 s3)) Q2 in
+  vals_spec (left_cauchy_green Fm) (fst (eigh (left_cauchy_green Fm))) ->
+  fst (eigh (left_cauchy_green Fm)) = (s1 * s1, s2 * s2, s3 * s3) /\
+  fst (finite_strain eigh Fm) = s3 - 1.
+Proof. exact fse_svd_value. Qed.
+
+Theorem C13_fse_diag_value : forall (eigh : S3 -> EV) a b c, 0 <= a -> a <= b -> b <= c ->
+  vals_spec (left_cauchy_green (diag3 a b c)) (fst (eigh (left_cauchy_green (diag3 a b c)))) ->
+  fst (finite_strain eigh (diag3 a b c)) = c - 1.
+Proof. exact fse_diag_value. Qed.
+
+Example C13_more_nonvacuous :
+  orthogonal I3 /\ (0 <= 1 /\ 1 <= 2 /\ 2 <= 3) /\
+  vals_spec (left_cauchy_green (diag3 1 2 3)) (1 * 1, 2 * 2, 3 * 3) /\
+  vals_spec (left_cauchy_green I3) (1, 1, 1) /\
+  parallel (1, 0, 0) (-1, 0, 0) /\ ForallOrdPairs parallel (map (rowv 0) [I3; I3]).
+Proof. exact nonvacuous_more. Qed.
+
+(* ---- smallest_angle (numba kernel): generated = model; range, errors, sign invariance, value ---- *)
+Theorem C13_gen_smallest_angle_is_model : forall (v a p : arr R),
+  @k_smallest_angle NumR v a = @smallest_angle NumR (vec_at v 0) (vec_at a 0) None /\
+  @k_smallest_angle_plane NumR v a p = @smallest_angle NumR (vec_at v 0) (vec_at a 0) (Some (vec_at p 0)).
+Proof. exact smallest_angle_insts. Qed.
+
+Theorem C13_smallest_angle_range : forall (v a : V3) plane x,
+  @smallest_angle NumR v a plane = Ok x -> 0 <= x <= 90.
+Proof. exact smallest_angle_range. Qed.
+
+(* ZeroDivisionError exactly when the (projected) vector or the axis vanishes; no other error *)
+Theorem C13_smallest_angle_error : forall (v a : V3) plane,
+  let w := match plane with Some p => @project_out NumR v p | None => v end in
+  (@smallest_angle NumR v a plane = Err DivZero <-> (w = (0, 0, 0) \/ a = (0, 0, 0))) /\
+  (forall e, @smallest_angle NumR v a plane = Err e -> e = DivZero).
+Proof. exact smallest_angle_error. Qed.
+
+(* the axis is bidirectional; so are the vector and the plane normal *)
+Theorem C13_smallest_angle_sign : forall (v a : V3) plane,
+  @smallest_angle NumR v (neg3 a) plane = @smallest_angle NumR v a plane /\
+  @smallest_angle NumR (neg3 v) a plane = @smallest_angle NumR v a plane /\
+  (forall p, plane = Some p -> @smallest_angle NumR v a (Some (neg3 p)) = @smallest_angle NumR v a plane).
+Proof. exact smallest_angle_sign. Qed.
+
+(* the value: the angle in [0, 90] degrees whose cosine is |v.a| / (|v| |a|) *)
+Theorem C13_smallest_angle_value : forall (v a : V3) x,
+  @smallest_angle_core NumR v a = Ok x ->
+  0 <= x <= 90 /\ cos (x * (PI / 180)) = Rabs (cosang v a).
+Proof. exact smallest_angle_core_cos. Qed.
+
+Example C13_smallest_angle_nonvacuous :
+  @smallest_angle NumR (1, 0, 0) (0, 1, 0) None = Ok 90 /\
+  @smallest_angle NumR (1, 0, 0) (-1, 0, 0) None = Ok 0 /\
+  @smallest_angle NumR (0, 0, 0) (1, 0, 0) None = Err DivZero /\
+  @smallest_angle NumR (0, 0, 1) (1, 0, 0) (Some (0, 0, 1)) = Err DivZero.
+Proof. exact nonvacuous_angle. Qed.
 
 (* ---- tie T: the definitions REGENERATED FROM THE SOURCE on every run (gen/Gen_diag.v) ----
    gen_scatter n r / gen_pgr n / gen_coaxial n / gen_bingham n are the generated
